@@ -436,7 +436,7 @@ def _jobs_for(prop, tier):
     if prop == 'C09':
         return jobs_c09(tier) + [j for j in jobs_option_below(tier) if j[1][3] in ('rpad', 'rpad_and_clip')] + jobs_simplify(tier) + jobs_fillna(tier) + jobs_bytemask(tier) + jobs_record_below(tier, ('rpad', 'rpad_and_clip')) + jobs_axis_through_record(tier, ('rpad', 'rpad_and_clip'))
     if prop == 'C11':
-        return jobs_simplify(tier)
+        return jobs_simplify(tier) + jobs_validity_params(tier)
     if prop == 'C07':
         return [j for j in jobs_option_below(tier) if j[1][3] == 'combinations'] + jobs_combinations(tier) + jobs_axis0(tier, 'combinations')
     if prop == 'C03':
@@ -6092,3 +6092,53 @@ def h_union_getitem_advanced(tags):
 def jobs_union_getitem_advanced(tier):
     q = [(0, 1, 0), (1, 0, 0, 1)] if tier == 'quick' else [(0, 1, 0), (1, 0, 0, 1), (0, 0), (1,), (0, 1), (1, 1, 0), (0, 1, 1, 0, 1)]
     return [(h_union_getitem_advanced, (t,), 1800) for t in q]
+
+
+# ------------------------------------------------------------------------------------------------ C11 / C12: the parameter rules of validityerror
+@guard
+def h_validity_string_content(kind):
+    """Content::validityerror_parameters on a list node marked as a string / bytestring whose content is marked char / byte but is not a
+    NumpyArray (an invalid layout): the answer is an error text - the check itself must not dereference anything that is not there"""
+    nc = NodeCtx(['CNT', 'LOA', 'LA', 'RA', 'NA', 'IDX', 'UTL', 'KD', 'IDS'], [], unwind=16)
+    nc.m.eng.stubs.update(nodeh.STRING_LENGTH_STUBS)          # error texts: lengths only
+    seen = []
+
+    def s_param_equals(eng, fr, ins, st, name, argv):
+        # (this, key, value): the list is marked "string" (or "bytestring": the first question is answered no), its content "char" / "byte"
+        # (the value strings are built by length-only string stubs: the questions are told apart by their order - "string"?, then for a
+        # bytestring "bytestring"?, then the content's "char" / "byte"?)
+        seen.append(len(seen))
+        answers = [1, 1] if kind == 'string' else [0, 1, 1]
+        k_ = seen[-1]
+        return z3.BitVecVal(answers[k_] if k_ < len(answers) else 0, 1)
+    nc.m.eng.stubs['_ZNK7awkward7Content16parameter_equalsERKNSt7__cxx1112basic_stringIcSt11char_traitsIcESaIcEEES8_'] = s_param_equals
+    nc.m.eng.stubs['_ZN7awkward4util16parameter_equalsE*'] = s_param_equals        # (inlined callers reach the free function directly)
+    nc.m.eng.stubs['vf$slot%d' % nc.slot('9classnameB5cxx11Ev')] = nodeh.s_some_string
+    this, lists, offs = build_listoffset64(nc, [1, 2])
+    pc_ = {}
+    _string_cells(pc_, 0, 'path', 'layout')
+    path = nc.m.record('path', pc_, const=True)
+    nc.m.record('ret', {})
+    unit = 'Content::validityerror_parameters %s over a non-NumpyArray content' % kind
+    try:
+        out = nc.m.call('_ZNK7awkward7Content24validityerror_parametersERKNSt7__cxx1112basic_stringIcSt11char_traitsIcESaIcEEE', [Ptr('ret', 0), this, path])
+        obls = [('the check does not raise', out.raised)]
+    except Unsupported as err:
+        if 'no feasible path' not in str(err):
+            raise
+        obls = [('the check comes back (returns or raises)', z3.BoolVal(True))]
+    # the engine's own obligations (a virtual call through a null pointer, control reaching `unreachable` ...) are discharged with these
+
+    def replay(model, ent):
+        prog = 'u8 3 97 98 99 indexed64 3 0 1 2 param __array__ "%s" listoffset64 3 0 1 3 param __array__ "%s" validity' % (('char', 'string') if kind == 'string' else ('byte', 'bytestring'))
+        kind_, got = fullnative.akrun(prog)
+        payload = dict(program=prog, native=[kind_, got])
+        if kind_ != 'OK' or not got:
+            return True, 'validity check of a %s list whose %s content is an IndexedArray64: native library %s %s (an error text is expected)' % (kind, 'char' if kind == 'string' else 'byte', kind_, str(got)[:200]), payload
+        return False, 'native library answers %r' % got[:80], payload
+    return mdischarge(nc.m, unit, obls, [], replay=replay,
+                      extra=dict(bounds='one list node over an opaque content; parameter lookups (rapidjson comparison) stubbed by their answers'))
+
+
+def jobs_validity_params(tier):
+    return [(h_validity_string_content, (k,), 900) for k in ('string', 'bytestring')]
